@@ -542,6 +542,8 @@ def main():
     o.append("(* base units in the variant order of `enum Unit` (after Derived): index, prefix_bias, suffix *)\n")
     o.append("Definition base_table : list (N * Z * list N) := [\n  " +
              ";\n  ".join("(%d%%N, %d, %s) (* %s *)" % (i, bias.get(b, 0), zs(suffix[b]), b) for i, b in enumerate(bases)) + "].\n\n")
+    o.append("(* serde names of the base variants of `enum Unit` (the variant identifiers), by index *)\n")
+    o.append("Definition base_names : list (N * list N) := [" + ";".join("(%d%%N, %s)" % (i, zs(b)) for i, b in enumerate(bases)) + "].\n\n")
     o.append("(* derived units: id, base-power closure (base index, multiplier), conversion, singular and plural display names *)\n")
     rows = []
     for k in sorted(units, key=lambda k: units[k]["id"]):
